@@ -22,15 +22,28 @@ queued and delivered by an explicit step, so that pilots can be launched, become
 active and end between a request and its delivery.  wait_pilots (polling on wall
 clock time) is a recorder.
 
-What is NOT the code's: the front part of _start_pilot_bulk (sandboxes, agent
-config, tarball, staging - SizingBulk's business).  work() is real; it calls a
-stand-in which does what the tail of the real _start_pilot_bulk does (pick the
-first launcher which can_launch, launch_pilots, register in _pilots).
+work() and _start_pilot_bulk() are real.  Of the latter's front part (SizingBulk's
+business) _prepare_pilot is a stand-in which keeps the job description the rig
+supplies, tar (ru.sh_callout as seen by base.py) is a no-op, the temporary
+directory lives in a scratch directory, and _stage_in is a SCHEDULE POINT: the
+launcher selection, the component lock around launch_pilots and the registration
+in _pilots are the code's.  The other schedule point is the batch system end of
+the stand-ins (JobExecutor.submit / job.Container.run call the rig's hooks): there
+a second logical thread can act while the launcher is inside the submission -
+the control subscriber delivering a queued message, the batch layer reporting job
+states (status callbacks, also for the job which is being submitted).  The
+component lock is instrumented: a delivery attempted while work() holds it waits
+(as the control thread would) and runs when the lock is released.
 
 script steps (python lists)                                     event logged
-  ['work', [pids]]            comp.work(pilot documents)             Work
+  ['work', [pids], opts]      comp.work(pilot documents)             WorkBegin .. Work
+       opts (optional): {'staging': steps, 'tarball': steps, 'submit': steps} - script steps
+       applied by the other threads at the first _stage_in (staging directives), the second
+       (tarball) and inside the submission; a 'jobends' step for a pilot of the bulk runs
+       once that pilot's job is at the batch system
   ['active', pid]             state message of the agent             Active
-  ['jobends', pid, state]     batch system reports DONE/FAILED/CANCELED   JobEnds
+  ['jobends', pid, state]     batch layer reports DONE/FAILED/CANCELED
+                              (or QUEUED / RUNNING: not final)       JobEnds
   ['kill', uids, form]        pmgr.kill_pilots(...)                  Request
   ['cancel', uids, form]      pmgr.cancel_pilots(...) / Pilot.cancel()    Request
   ['raw', uids, own, form]    a kill_pilots control message as such  Request
@@ -44,7 +57,9 @@ script steps (python lists)                                     event logged
 every event carries  msgs (control messages published), pubs (state publications
 of the launcher [pid, state]), cbs (application callbacks [pid, state]), jobc
 (pids whose batch job got a cancel), post (per pilot: launcher view lv, client
-view cs, remembered for cancellation pre), prex (other uids remembered), raised.
+view cs, remembered for cancellation pre), prex (other uids remembered), raised,
+during ('none' | 'staging' | 'tarball' | 'submit' | 'unlock': where work() was
+when the event happened) and lvpre / cspre (launcher / client views before the event).
 '''
 
 import copy
@@ -94,6 +109,52 @@ class _Rep(rpshim.NullLog):
     _enabled = False
 
 
+class TrackedLock(object):
+    '''re-entrant lock for logical threads: the rig says who runs (`who()`), the lock
+       knows its holder; `on_free` runs when it is given up'''
+
+    def __init__(self, who, on_free):
+        self.who, self.on_free, self.holder, self.depth = who, on_free, None, 0
+
+    def acquire(self, *a, **k):
+        assert self.holder in (None, self.who()), 'lock taken while %s holds it' % self.holder
+        self.holder = self.who()
+        self.depth += 1
+        return True
+
+    def release(self):
+        self.depth -= 1
+        if self.depth == 0:
+            self.holder = None
+            self.on_free()
+
+    __enter__ = acquire
+
+    def __exit__(self, *a):
+        self.release()
+
+
+class _Proxy(object):
+    '''a module as base.py sees it, some names replaced'''
+
+    def __init__(self, real, **over):
+        self.__dict__.update(_real=real, _over=over)
+
+    def __getattr__(self, name):
+        over = self.__dict__['_over']
+        return over[name] if name in over else getattr(self.__dict__['_real'], name)
+
+
+class _Session(object):
+    uid = 'rp.session.verif.0000'
+
+    def get_resource_config(self, resource, schema=None):
+        return dict(RCFG[str(resource).split('.')[-1]], filesystem_endpoint='file://localhost/')
+
+    def _get_session_sandbox(self, pilot):
+        return ru.Url('file://localhost/scratch/radical.pilot.sandbox/%s' % self.uid)
+
+
 class _Closer(object):
     def close(self, *a, **k):
         pass
@@ -110,9 +171,23 @@ class PilotKillRig(object):
         self.script = [list(s) for s in script]
         self.events = []
         self.ctlq   = []
-        self.cur    = None           # recorders of the event in progress
+        self.stack  = []             # recorders of the events in progress (innermost last)
         self.jobcs  = set()          # pids whose job was asked to cancel and did not end yet
         self.waits  = []
+        self.jobs   = dict()         # pid -> job object at the batch system stand-in
+        self.jex    = dict()         # pid -> PSI/J executor of the job
+        self.dead   = set()          # pids whose job reported a final state
+        self.thread = 'main'         # the logical thread which runs
+        self.phase  = 'none'         # where work() is
+        self.plan   = dict()         # steps of the other threads per schedule point of work()
+        self.waiting = []            # deliveries which wait for the component lock
+        self.begun  = True
+        self.wpids  = []
+        self.bulk   = []             # the bulk _start_pilot_bulk is busy with
+
+    @property
+    def cur(self):
+        return self.stack[-1] if self.stack else None
 
     # ---- the wire ----------------------------------------------------------------
     def _pmgr_publish(self, pubsub, msg, topic=None):
@@ -181,7 +256,8 @@ class PilotKillRig(object):
         c._log       = log
         c._prof      = SZ._Prof()
         c._pilots    = dict()
-        c._lock      = mt.RLock()
+        c._lock      = TrackedLock(lambda: self.thread, self._lock_free)
+        c._session   = _Session()
         c._sandboxes = dict()
         c._cancelled = list()
         c._outputs   = dict()
@@ -190,7 +266,17 @@ class PilotKillRig(object):
         c._launchers = dict()
         c._launchers['PSI_J'] = psi_mod.PilotLauncherPSIJ('PSI_J', log, c._prof, c._state_cb)
         c._launchers['SAGA']  = saga_mod.PilotLauncherSAGA('SAGA', log, c._prof, c._state_cb)
-        c._start_pilot_bulk   = self._bulk_tail
+        c._prepare_pilot      = self._prepare_pilot
+        c._stage_in           = self._stage_point
+        real_bulk             = c._start_pilot_bulk
+
+        def start_pilot_bulk(resource, schema, pilots):
+            self.bulk = [p['uid'] for p in pilots]
+            try:
+                return real_bulk(resource, schema, pilots)
+            finally:
+                self.bulk = []
+        c._start_pilot_bulk   = start_pilot_bulk
         self.comp = c
 
     def _make_pilot(self, pid):
@@ -228,36 +314,86 @@ class PilotKillRig(object):
                 'description': {'resource': 'verif.%s' % kind, 'access_schema': None},
                 'jd_dict': jd}
 
-    def _bulk_tail(self, resource, schema, pilots):
-        '''the last part of the real _start_pilot_bulk: launcher selection,
-           launch_pilots, registration'''
-        c, rcfg = self.comp, RCFG[str(resource).split('.')[-1]]
-        buckets = defaultdict(list)
-        for pilot in pilots:
-            for lname, launcher in c._launchers.items():
-                if launcher.can_launch(rcfg, pilots):
-                    pilot['launcher'] = lname
-                    buckets[lname].append(pilot)
-                    break
-            if not pilot.get('launcher'):
-                raise RuntimeError('no launcher found for %s' % pilot['uid'])
-        with c._lock:
-            for lname, bucket in buckets.items():
-                c._launchers[lname].launch_pilots(rcfg, bucket)
-                for pilot in bucket:
-                    c._pilots[pilot['uid']] = pilot
-        for pilot in pilots:
-            self._watch_job(pilot['uid'], pilot['launcher'])
+    def _prepare_pilot(self, resource, rcfg, pilot, expand, tar_name):
+        # the job description is the rig's (see _doc); nothing to stage
+        pilot['fts'], pilot['sds'] = list(), list()
 
-    def _watch_job(self, pid, lname):
-        job  = self.comp._launchers[lname]._jobs[pid]
+    # ---- schedule points of work() ---------------------------------------------------
+    def _stage_point(self, pilot, sds):
+        if self.thread != 'work':
+            return
+        self.nstage += 1
+        self._work_begun()
+        self._at('staging' if self.nstage == 1 else 'tarball' if self.nstage == 2 else 'later')
+
+    def _work_begun(self):
+        '''work() sorted out the pilots a kill had named and is about to stage: what it
+           published until here is the WorkBegin event'''
+        if self.begun:
+            return
+        self.begun = True
+        cur = self.stack[-1]
+        rec = dict(ev='WorkBegin', raised='none', during='none', pids=list(self.wpids),
+                   lvpre=self.wlvpre, msgs=cur['msgs'], pubs=cur['pubs'], cbs=cur['cbs'],
+                   jobc=sorted(set(cur['jobc'])))
+        rec.update(self._post())
+        self.events.append(rec)
+        cur.update(msgs=[], pubs=[], cbs=[], jobc=[])
+
+    def _at(self, point):
+        '''the other threads act while work() is at `point`'''
+        keep, self.phase, self.thread = (self.phase, self.thread), point, 'other'
+        try:
+            todo = self.plan.get(point) or []
+            rest = []
+            for step in todo:
+                if step[0] == 'jobends' and step[1] in self.wpids and step[1] not in self.jobs:
+                    rest.append(step)            # that job is not at the batch system yet
+                else:
+                    self._apply(step)
+            self.plan[point] = rest
+        finally:
+            self.phase, self.thread = keep
+
+    def _submit_point(self, found):
+        '''the batch system end: `found` = [(pid, job, executor or None)] just handed over'''
+        for pid, job, jex in found:
+            self.jobs[pid] = job
+            if jex is not None:
+                self.jex[pid] = jex
+            self._watch_job(pid, job)
+        if self.thread == 'work':
+            self._work_begun()
+            self._at('submit')
+
+    def _psij_submit(self, executor, job):
+        args = [str(a) for a in (job.spec.arguments or [])]
+        pid  = args[args.index('-p') + 1] if '-p' in args else 'unknown'
+        self._submit_point([(pid, job, executor)])
+
+    def _saga_run(self, container):
+        self._submit_point([(str(t.name)[4:], t, None) for t in container.tasks])
+
+    def _watch_job(self, pid, job):
         real = job.cancel
 
         def cancel(*a, **k):
-            self.cur['jobc'].append(pid)
+            if self.cur is not None:
+                self.cur['jobc'].append(pid)
             self.jobcs.add(pid)
             return real(*a, **k)
         job.cancel = cancel
+
+    def _lock_free(self):
+        '''the component lock was given up: a control thread which waited for it goes on'''
+        if self.thread == 'work' and self.waiting:
+            todo, self.waiting = self.waiting, []
+            keep, self.phase, self.thread = (self.phase, self.thread), 'unlock', 'other'
+            try:
+                for step in todo:
+                    self._apply(step)
+            finally:
+                self.phase, self.thread = keep
 
     # ---- projections ---------------------------------------------------------------
     def _lview(self, pid):
@@ -273,15 +409,25 @@ class PilotKillRig(object):
                 'prex': sorted(set(x for x in pre if x not in self.pids)),
                 'nctl': len(self.ctlq)}
 
+    def _lviews(self):
+        return [self._lview(pid) for pid in self.pids]
+
     def _event(self, ev, fn, **args):
-        self.cur = {'msgs': [], 'pubs': [], 'cbs': [], 'jobc': []}
+        '''events nest (a delivery inside work()): what is published goes to the innermost'''
+        lvpre = self._lviews()
+        cspre = [cview(self.pm._pilots[pid].state) for pid in self.pids]
+        self.stack.append({'msgs': [], 'pubs': [], 'cbs': [], 'jobc': []})
         raised = 'none'
         try:
             fn()
         except Exception as e:
             raised = '%s: %s' % (type(e).__name__, str(e)[:80])
-        rec = dict(ev=ev, raised=raised, **args)
-        cur, self.cur = self.cur, None
+        cur = self.stack.pop()
+        rec = dict(ev=ev, raised=raised, during=self.phase, lvpre=lvpre, cspre=cspre, **args)
+        if ev == 'Deliver':
+            # the pilots work() is busy with / whose jobs are being submitted just now
+            rec.update(inwork=list(self.wpids) if self.thread != 'main' else [],
+                       insubmit=list(self.bulk) if self.phase == 'submit' else [])
         cur['jobc'] = sorted(set(cur['jobc']))
         rec.update(cur)
         rec.update(self._post())
@@ -289,22 +435,24 @@ class PilotKillRig(object):
         return rec
 
     # ---- steps ---------------------------------------------------------------------
+    SAGA_STATES = {'DONE': 'DONE', 'FAILED': 'FAILED', 'CANCELED': 'CANCELED', 'QUEUED': 'PENDING',
+                   'RUNNING': 'RUNNING'}
+    PSIJ_STATES = {'DONE': 'COMPLETED', 'FAILED': 'FAILED', 'CANCELED': 'CANCELED', 'QUEUED': 'QUEUED',
+                   'RUNNING': 'ACTIVE'}
+
     def _job_report(self, pid, state):
-        '''the batch system reports the end of the pilot's job to the launcher'''
-        lname = self.comp._pilots[pid]['launcher']
-        lch   = self.comp._launchers[lname]
-        job   = lch._jobs[pid]
-        if lname == 'SAGA':
-            job.state = {'DONE': self.saga.DONE, 'FAILED': self.saga.FAILED,
-                         'CANCELED': self.saga.CANCELED}[state]
+        '''the batch layer reports a state of the pilot's job to the launcher: through the
+           callbacks the launcher registered (per job: SAGA, per executor: PSI/J)'''
+        job = self.jobs[pid]
+        if pid in self.jex:
+            job.status = self.psij.JobStatus(getattr(self.psij.JobState, self.PSIJ_STATES[state]))
+            self.jex[pid]._cb(job, job.status)
+        else:
+            job.state = getattr(self.saga, self.SAGA_STATES[state])
             for metric, cb in list(job.callbacks):
                 cb(job, metric, job.state)
-        else:
-            js = self.psij.JobState
-            job.status = self.psij.JobStatus({'DONE': js.COMPLETED, 'FAILED': js.FAILED,
-                                              'CANCELED': js.CANCELED}[state])
-            job.executor._cb(job, job.status)
-        self.jobcs.discard(pid)
+        if state in ('DONE', 'FAILED', 'CANCELED'):
+            self.jobcs.discard(pid)
 
     def _arg(self, uids, form):
         if form == 'none':
@@ -314,21 +462,41 @@ class PilotKillRig(object):
             return uids[0]
         return list(uids)
 
+    def _work(self, pids, plan):
+        c = self.comp
+        self.plan, self.begun, self.nstage = {k: [list(x) for x in v] for k, v in plan.items()}, False, 0
+        self.wpids, self.wlvpre = list(pids), self._lviews()
+        keep, self.thread = self.thread, 'work'
+        try:
+            c.work([self._doc(p) for p in pids])
+        finally:
+            self.thread = keep
+            self._work_begun()               # nothing was staged: all of it is the begin
+
     def _apply(self, step):
         op, pm, c = step[0], self.pm, self.comp
         if op == 'work':
-            pids = list(step[1])
-            self._event('Work', lambda: c.work([self._doc(p) for p in pids]), pids=pids)
-        elif op in ('active', 'jobends') and self._lview(step[1]) != 'live':
+            pids, plan = list(step[1]), dict(step[2]) if len(step) > 2 else {}
+            self._event('Work', lambda: self._work(pids, plan), pids=pids)
+            # what the other threads could not do inside (no such point reached): afterwards
+            for point in ('staging', 'tarball', 'submit'):
+                for st in self.plan.get(point) or []:
+                    self._apply(st)
+            self.plan = dict()
+        elif op in ('active', 'jobends') and (step[1] not in self.jobs or step[1] in self.dead):
             pass                              # no such job (any more): nothing can report
         elif op == 'active':
             pid = step[1]
-            msg = {'cmd': 'update', 'arg': {'type': 'pilot', 'uid': pid, 'state': rps.PMGR_ACTIVE}}
-            self._event('Active', lambda: pm._state_sub_cb(rpc.STATE_PUBSUB, msg), pid=pid)
+            if self._lview(pid) == 'live':
+                msg = {'cmd': 'update', 'arg': {'type': 'pilot', 'uid': pid, 'state': rps.PMGR_ACTIVE}}
+                self._event('Active', lambda: pm._state_sub_cb(rpc.STATE_PUBSUB, msg), pid=pid)
         elif op == 'jobends':
             pid, state = step[1], step[2]
+            final = state in ('DONE', 'FAILED', 'CANCELED')
+            if final:
+                self.dead.add(pid)
             self._event('JobEnds', lambda: self._job_report(pid, state), pid=pid, state=state,
-                        asked=pid in self.jobcs)
+                        final=final, asked=pid in self.jobcs, listening=not pm._terminate.is_set())
         elif op in ('kill', 'cancel'):
             uids, form = list(step[1]), step[2] if len(step) > 2 else 'list'
             if form == 'pilot':
@@ -348,7 +516,10 @@ class PilotKillRig(object):
         elif op == 'close':
             self._event('Request', lambda: pm.close(), api='close', uids=[], form='none', own=True)
         elif op == 'deliver':
-            if self.ctlq:
+            if c._lock.holder == 'work' and self.thread != 'work':
+                # work() holds the component lock: the control thread waits for it
+                self.waiting.append(['deliver'])
+            elif self.ctlq:
                 msg = self.ctlq.pop(0)
                 self._event('Deliver', lambda: c.control_cb(rpc.CONTROL_PUBSUB, copy.deepcopy(msg)),
                             msg=self._msg_proj(msg))
@@ -356,7 +527,7 @@ class PilotKillRig(object):
             while self.ctlq:
                 self._apply(['deliver'])
             for pid in self.pids:
-                if pid in self.jobcs and self._lview(pid) == 'live':
+                if pid in self.jobcs and pid in self.jobs and pid not in self.dead:
                     self._apply(['jobends', pid, 'CANCELED'])
         elif op == 'end':
             self._event('End', lambda: None)
@@ -365,9 +536,21 @@ class PilotKillRig(object):
 
     def run(self):
         hooks     = SZ.Hooks()
+        hooks.psij_submit, hooks.saga_run = self._psij_submit, self._saga_run
         self.psij = SZ.fake_psij(hooks)
         self.saga = SZ.fake_saga(hooks)
-        patches = [mock.patch.object(psi_mod,  'psij',    self.psij),
+        # the temporary session sandbox of _start_pilot_bulk holds nothing here (no files to stage,
+        # tar is a no-op): it is not created on disk at all
+        count = [0]
+
+        def mkdtemp(prefix='tmp', **k):
+            count[0] += 1
+            return '/tmp/b-pilotkill_virtual/%s%04d' % (prefix, count[0])
+        patches = [mock.patch.object(lbase, 'ru', _Proxy(lbase.ru, sh_callout=lambda *a, **k: ('', '', 0))),
+                   mock.patch.object(lbase, 'tempfile', _Proxy(lbase.tempfile, mkdtemp=mkdtemp)),
+                   mock.patch.object(lbase, 'os', _Proxy(lbase.os, makedirs=lambda *a, **k: None)),
+                   mock.patch.object(lbase, 'shutil', _Proxy(lbase.shutil, rmtree=lambda *a, **k: None)),
+                   mock.patch.object(psi_mod,  'psij',    self.psij),
                    mock.patch.object(psi_mod,  'psij_ex', None),
                    mock.patch.object(saga_mod, 'rs',      self.saga),
                    mock.patch.object(saga_mod, 'rs_ex',   None)]
@@ -397,10 +580,25 @@ def random_script(rng):
         new  = [p for p in pids if lv[p] == 'none']
         live = [p for p in pids if lv[p] == 'live']
         if x < 0.25 and new:
-            s = rng.sample(new, rng.randint(1, len(new)))
-            script.append(['work', sorted(s)])
+            s = sorted(rng.sample(new, rng.randint(1, len(new))))
+            step, opts = ['work', s], {}
+            if rng.random() < 0.5:
+                # the other threads act while work() is busy with this bulk
+                if nctl and rng.random() < 0.7:
+                    opts.setdefault(rng.choice(['staging', 'tarball', 'submit', 'submit']), []).append(['deliver'])
+                    nctl -= 1
+                for p in s:
+                    if rng.random() < 0.3:
+                        k  = kinds[pids.index(p)]
+                        st = rng.choice(['DONE', 'CANCELED'] + (['FAILED'] if k == 'psij' else []))
+                        opts.setdefault('submit', []).extend([['jobends', p, 'QUEUED'], ['jobends', p, st]])
+                        lv[p] = 'final'
+                if opts:
+                    step.append(opts)
+            script.append(step)
             for p in s:
-                lv[p] = 'live'                        # or dropped: the rig does not care
+                if lv[p] == 'none':
+                    lv[p] = 'live'                    # or dropped: the rig does not care
         elif x < 0.35 and live:
             script.append(['active', rng.choice(live)])
         elif x < 0.50 and live:
